@@ -216,6 +216,7 @@ func capCase(mask uint32, xtv string, o vxdrive.Opts) Case {
 	caps.XTVersion = xtv
 	caps.UserCursorStyle = int(mask % 7)
 	caps.DECRPMAbsent = int(mask>>4+mask) % 3
+	caps.TcapNoValue = (mask>>2+mask)%4 == 1
 	if caps.OSC176 {
 		caps.AppID = "orig"
 	}
